@@ -157,7 +157,7 @@ def r2_validate_before_commit(ctx):
     if len(commits) < 3:
         raise AnalysisError("C16.R2", f"anchor vanished: commits of add_individual_parameters ({len(commits)} found)")
     kinds = {("not isinstance(", ", str)"): "non-string identifier", (" in self._indices",): "duplicate identifier", ("not isinstance(", ", dict)"): "non-dictionary",
-             ("scalar_type", " not in "): "unsupported value type", ("self._parameters_shape != ",): "inconsistent shapes"}
+             ("scalar_type", " not in "): "unsupported value type", ("self._parameters_shape", " != "): "inconsistent shapes"}
     seen = set()
     for r in raises:
         st = cfg.stmt[r]
